@@ -1123,9 +1123,10 @@ func main() {
 		}
 	}
 	mcreport.Main("C14", "model_checking",
-		"delay-bounded exhaustive exploration of 2-3 executor threads (1-2 prepared queries / batches each) on a real Session over 1-2 scripted nodes: every schedule, timer and fault placement with at most T deviations from the default schedule (P: run another thread, D: fire a request timeout early, F: the node fails a PREPARE with an ERROR frame / never answers it / forgets a prepared id and answers UNPREPARED); scenarios vary the statements (5 statements with different bind and result metadata), MaxPreparedStmts (default, 1, 2), hosts (1, 2), queries vs batches, right vs wrong number of bound values; node logs (ids issued per host and statement, values decoded against the statement's bind metadata) and caller results are checked against the property",
+		"delay-bounded exhaustive exploration of 2-3 executor threads (1-2 prepared queries / batches each) on a real Session over 1-2 scripted nodes: every schedule, timer and fault placement with at most T deviations from the default schedule (P: run another thread, D: fire a request timeout early, F: the node fails a PREPARE with an ERROR frame / never answers it / forgets a prepared id and answers UNPREPARED); scenarios vary the statements (5 statements with different bind and result metadata; 10 kinds of PAIRS of distinct statements with almost equal texts - white space inside a string literal / quoted identifier (two blanks, tab, newline), letter case inside a literal / quoted identifier / of the keywords, a leading or trailing blank, a trailing semicolon - each as two queries and as two entries of one batch), MaxPreparedStmts (default, 1, 2), hosts (1, 2), queries vs batches, right vs wrong number of bound values, and whose context ends (the first operation of ANY one executor - the one that wins the race to PREPARE or one waiting on that PREPARE - cancelled at a freely chosen gate or by a 20ms deadline, with the same statement executed again while the PREPARE, answered 30ms late, is still in flight); node logs (ids issued per host and statement, values decoded against the statement's bind metadata) and caller results are checked against the property",
 		[]string{"1 connection per host, round-robin host selection, request timeout 100ms, protocol v4, no control connection, no retry policy",
 			"every PREPARE returns a fresh host-specific id (<host>/<statement>/g<n>); earlier ids stay valid until the node forgets them",
+		"the node identifies a statement by its exact text (as a server does: the id is a digest of the text): texts that differ in any byte are different statements with different ids",
 			"stream-allocator atomics are not scheduling points (C08); the LRU has no internal scheduling points, so its length is read between steps"},
 		defs, 75*time.Second, 25*time.Minute, nil)
 }
